@@ -679,6 +679,7 @@ func init() {
 			return nil
 		},
 		hname("vOnMain"): func(e *Engine, fn *ssa.Function, a []Value) Value { return e.ts.True },
+		hname("vHarnessGoroutine"): func(e *Engine, fn *ssa.Function, a []Value) Value { return e.ts.Bool(e.inGoroutine == 0) },
 		hname("vCondSignals"): func(e *Engine, fn *ssa.Function, a []Value) Value {
 			return e.intConst(e.ghostOf(a[0].(Ptr).c).signals)
 		},
